@@ -30,6 +30,9 @@ that fact on the parsed trees and are skipped when it does not hold.
 
   if not C: A else: B               ==>          if C: B else: A    (only when both arms are present)
 
+  if A and (x := E) != K: S         ==>          if A: x = E; if x != K: S
+  while A and (x := E): B           ==>          while A: x = E; if not x: break; B
+
   L = [x for x in IT if C]; for x in L: BODY     ==>     for x in IT: if C: BODY
 
   L[a:] = [x]                       ==>          del L[a:]; L.append(x)
@@ -298,6 +301,50 @@ class Normaliser:
             i += 1
         return stmts
 
+    def unwalrus(self, st: ast.stmt) -> list[ast.stmt] | None:
+        """if A and (x := E) != K: S          if A: x = E; if x != K: S
+           while A and (x := E): B     ==>    while A: x = E; if not x: break; B
+        (the assignment expression in the last operand of the test; no loop-else)"""
+        test = st.test
+        ops = list(test.values) if isinstance(test, ast.BoolOp) and isinstance(test.op, ast.And) else [test]
+        last = ops[-1]
+
+        def split(e: ast.AST):
+            """(assignment, remaining test) when e is `(x := E)` or a comparison/not whose leftmost operand is one"""
+            if isinstance(e, ast.NamedExpr):
+                return ast.Assign(targets=[ast.Name(id=e.target.id, ctx=ast.Store())], value=e.value), ast.Name(id=e.target.id, ctx=ast.Load())
+            if isinstance(e, ast.Compare) and isinstance(e.left, ast.NamedExpr):
+                n = e.left
+                return (ast.Assign(targets=[ast.Name(id=n.target.id, ctx=ast.Store())], value=n.value),
+                        ast.Compare(left=ast.Name(id=n.target.id, ctx=ast.Load()), ops=e.ops, comparators=e.comparators))
+            if isinstance(e, ast.UnaryOp) and isinstance(e.op, ast.Not):
+                r = split(e.operand)
+                if r is not None:
+                    return r[0], ast.UnaryOp(op=ast.Not(), operand=r[1])
+            return None
+        sp = split(last)
+        if sp is None or any(isinstance(x, ast.NamedExpr) for o in ops[:-1] for x in ast.walk(o)):
+            return None
+        asg, rest_test = sp
+        if any(isinstance(x, ast.NamedExpr) for x in ast.walk(rest_test)) or any(isinstance(x, ast.NamedExpr) for x in ast.walk(asg.value)):
+            return None
+        ast.copy_location(asg, st)
+        head = ops[:-1]
+        head_test = None if not head else (head[0] if len(head) == 1 else ast.BoolOp(op=ast.And(), values=head))
+        if isinstance(st, ast.While):
+            if st.orelse:
+                return None
+            brk = ast.If(test=_negate(rest_test), body=[ast.Break()], orelse=[])
+            new = ast.While(test=head_test if head_test is not None else ast.Constant(value=True), body=[asg, brk] + st.body, orelse=[])
+            self.hit("walrus-in-while-test")
+            return [ast.fix_missing_locations(ast.copy_location(new, st))]
+        inner = ast.If(test=rest_test, body=st.body, orelse=copy.deepcopy(st.orelse))
+        self.hit("walrus-in-if-test")
+        if head_test is None:
+            return [ast.fix_missing_locations(asg), ast.fix_missing_locations(ast.copy_location(inner, st))]
+        outer = ast.If(test=head_test, body=[asg, inner], orelse=st.orelse)
+        return [ast.fix_missing_locations(ast.copy_location(outer, st))]
+
     def slice_pops(self, stmts: list[ast.stmt]) -> list[ast.stmt]:
         """a, b = L[-2:]; del L[-2:]   ==>   b = L.pop(); a = L.pop()     (the same values and the same final L whenever L holds at
         least that many items; with fewer both spellings raise)"""
@@ -538,6 +585,10 @@ class Normaliser:
             ap = ast.Expr(value=ast.Call(func=ast.Attribute(value=copy.deepcopy(tgt.value), attr="append", ctx=ast.Load()), args=[st.value.elts[0]], keywords=[]))
             self.hit("tail-slice-assign->del+append")
             return [ast.fix_missing_locations(ast.copy_location(d, st)), ast.fix_missing_locations(ast.copy_location(ap, st))]
+        if isinstance(st, (ast.If, ast.While)):
+            r = self.unwalrus(st)
+            if r is not None:
+                return r
         if isinstance(st, ast.Try):
             r = self.try_lookup(st)
             if r is not None:
